@@ -17,7 +17,7 @@ class Sanitizers:
 
     def report(self, kind, text):
         self.reports.append((kind, text))
-        self.trace.ev("srv", "sanitizer", kind=kind, text=text[:400])
+        self.trace.ev("srv", "sanitizer", what=kind, text=text[:400])
 
     def loop_handler(self, loop, context):
         exc = context.get("exception")
